@@ -4,6 +4,10 @@
 //@ anchor: src/debugger/watchpoint.rs :: impl HardwareBreakpoint / fn address_already_observed
 //@ anchor: src/debugger/watchpoint.rs :: impl WatchpointRegistry / fn distribute_to_tracee
 //@ anchor: src/debugger/watchpoint.rs :: impl Watchpoint / fn from_raw_addr
+//@ anchor: src/debugger/watchpoint.rs :: impl WatchpointRegistry / fn refresh
+//@ fragment: REFRESH :: src/debugger/watchpoint.rs :: impl WatchpointRegistry / fn refresh :: `^.filter_map(|wp| {` .. `^}) .collect()`
+//@ harness: name=c14_registry_refresh prop=C14 unit=C14.registry_refresh mode=complete fn="WatchpointRegistry::refresh (per-watchpoint closure body)" timeout=600
+//@ assume: C14.registry_refresh: Watchpoint::refresh is replaced by a recorder returning a symbolic register image or an error; iter_mut().filter_map() applies the closure to every watchpoint in order (std)
 //@ harness: name=c14_hw_enable prop=C14 unit=C14.hw_enable mode=complete fn="HardwareBreakpoint::enable" timeout=600
 //@ harness: name=c14_hw_disable prop=C14 unit=C14.hw_disable mode=complete fn="HardwareBreakpoint::disable" timeout=600
 //@ harness: name=c14_observed prop=C14 unit=C14.observed mode=complete fn="HardwareBreakpoint::address_already_observed" timeout=600
@@ -196,4 +200,45 @@ fn c14_distribute() {
         assert!(unsafe { m::SYNC_CALLS } == 0, "C14.distribute.E4 nothing is written when no watchpoint was ever set");
     }
     core::mem::forget(reg);
+}
+
+
+// ---- re-enabling watchpoints after a restart (closure body of WatchpointRegistry::refresh, spliced verbatim)
+struct WpRec { ok: bool, img: [usize; 6] }
+impl WpRec {
+    fn scoped(&self) -> bool { false }
+    fn refresh(&mut self, _tracee_ctl: &()) -> Result<HardwareDebugState, Error> {
+        if self.ok { Ok(m::state_of(self.img)) } else { Err(Error::WatchpointLimitReached) }
+    }
+}
+struct DebugeeRec;
+impl DebugeeRec { fn tracee_ctl(&self) -> &() { &() } }
+struct RegistryRec { last_seen_state: Option<HardwareDebugState> }
+impl RegistryRec {
+    fn refresh_one(&mut self, wp: &mut WpRec, debugee: &DebugeeRec) -> Option<Error> {
+        /*@@FRAGMENT:REFRESH*/
+    }
+}
+
+#[kani::proof]
+fn c14_registry_refresh() {
+    let old: [usize; 6] = kani::any();
+    let had: bool = kani::any();
+    let mut reg = RegistryRec { last_seen_state: if had { Some(m::state_of(old)) } else { None } };
+    let mut wp = WpRec { ok: kani::any(), img: kani::any() };
+    let r = reg.refresh_one(&mut wp, &DebugeeRec);
+    if wp.ok {
+        assert!(r.is_none(), "C14.registry_refresh.E1 a re-enabled watchpoint reports no error");
+        match &reg.last_seen_state {
+            Some(s) => assert!(m::image_of(s) == wp.img, "C14.registry_refresh.E2 the registry records the register image of the re-enabled watchpoint (threads created later inherit it)"),
+            None => panic!("C14.registry_refresh.E2 the registry records the register image of the re-enabled watchpoint (threads created later inherit it)"),
+        }
+    } else {
+        assert!(r.is_some(), "C14.registry_refresh.E3 a failure is reported");
+        match &reg.last_seen_state {
+            Some(s) => assert!(had && m::image_of(s) == old, "C14.registry_refresh.E4 a failure leaves the recorded image unchanged"),
+            None => assert!(!had, "C14.registry_refresh.E4 a failure leaves the recorded image unchanged"),
+        }
+    }
+    core::mem::forget((r, reg));
 }
